@@ -33,7 +33,7 @@ ChildrenOf(s, p) == {Cont(s, p)[j].id : j \in {x \in 1..Len(Cont(s, p)) : Cont(s
 TextValues(s, p) ==
   LET k == Kind(s, p) IN
   IF KIsRef(k) THEN {PVal(<<a>>) : a \in ItemNames} \cup {PVal(<<a, b>>) : a \in ItemNames, b \in ItemNames}
-  ELSE IF KName(k) = "SHORT-NAME" THEN {SVal(a) : a \in ItemNames}
+  ELSE IF KName(k) = "SHORT-NAME" THEN {SVal(a) : a \in ItemNames \cup InvalidNames}
   ELSE IF ~HasSpec(k) THEN {SVal("x")}
   ELSE CASE Schema[k].cdata.k = "Enum" -> {EVal(Schema[k].cdata.items[i].i) : i \in 1..Len(Schema[k].cdata.items)}
          [] Schema[k].cdata.k = "UInt" -> {UVal("7")}
@@ -48,7 +48,7 @@ Actions(s) ==
      \cup (IF "Remove" \in Ops THEN {[A0 EXCEPT !.op = "Remove", !.p = p, !.c = c] : p \in N, c \in (IF Wild THEN N ELSE {})} \cup
                                      {[A0 EXCEPT !.op = "Remove", !.p = p, !.c = c] : <<p, c>> \in {<<x, y>> \in N \X N : y \in ChildrenOf(s, x)}} ELSE {})
      \cup (IF "RemoveKind" \in Ops THEN {[A0 EXCEPT !.op = "RemoveKind", !.p = p, !.k = k] : p \in N, k \in ElemNames} ELSE {})
-     \cup (IF "Rename" \in Ops THEN {[A0 EXCEPT !.op = "Rename", !.p = p, !.name = nm] : p \in {x \in N : Wild \/ KNamed(Kind(s, x))}, nm \in ItemNames \cup {""}} ELSE {})
+     \cup (IF "Rename" \in Ops THEN {[A0 EXCEPT !.op = "Rename", !.p = p, !.name = nm] : p \in {x \in N : Wild \/ KNamed(Kind(s, x))}, nm \in ItemNames \cup {""} \cup InvalidNames} ELSE {})
      \cup (IF "Copy" \in Ops THEN {[A0 EXCEPT !.op = "Copy", !.p = p, !.c = c, !.pos = ps] : p \in N, c \in N, ps \in {-1} \cup PosSet} ELSE {})
      \cup (IF "Move" \in Ops THEN {[A0 EXCEPT !.op = "Move", !.p = p, !.c = c, !.pos = ps] : p \in N, c \in N, ps \in {-1} \cup PosSet} ELSE {})
      \cup (IF "SetRef" \in Ops THEN {[A0 EXCEPT !.op = "SetRef", !.p = p, !.c = c] : p \in {x \in N : Wild \/ KIsRef(Kind(s, x))}, c \in N} ELSE {})
@@ -61,7 +61,7 @@ Actions(s) ==
      \cup (IF "Duplicate" \in Ops /\ Len(s.root) < NM + 1 THEN {[A0 EXCEPT !.op = "Duplicate", !.m = m] : m \in 1..Len(s.root)} ELSE {})
      \cup (IF "SetAttr" \in Ops THEN UNION {{[A0 EXCEPT !.op = "SetAttr", !.p = p, !.an = av[1], !.val = av[2]] : av \in AttrValues} : p \in N} ELSE {})
      \cup (IF "RemoveAttr" \in Ops THEN {[A0 EXCEPT !.op = "RemoveAttr", !.p = p, !.an = an] : p \in N, an \in {av[1] : av \in AttrValues}} ELSE {})
-     \cup (IF "Load" \in Ops THEN {[A0 EXCEPT !.op = "Load", !.m = 1, !.k = d, !.name = d] : d \in DocNames} ELSE {})
+     \cup (IF "Load" \in Ops THEN {[A0 EXCEPT !.op = "Load", !.m = 1, !.k = d, !.name = d, !.ver = md] : d \in DocNames, md \in {"", "lenient"}} ELSE {})
      \cup (IF "SetComment" \in Ops THEN {[A0 EXCEPT !.op = "SetComment", !.p = p, !.name = cm] : p \in N, cm \in {"", "c--d"}} ELSE {})
 
 Red(s) == [n |-> s.n, f |-> s.f,
